@@ -612,3 +612,18 @@ func Str0(s ast.Stmt) string {
 	}
 	return "statement"
 }
+
+// LoopHead returns the synthetic entry node of the loop-header block of a for / range statement (the target of
+// `continue` and of the back edge), or -1.
+func (g *Graph) LoopHead(s ast.Stmt) int {
+	for i, b := range g.CFG.Blocks {
+		if b.Stmt != s {
+			continue
+		}
+		switch b.Kind {
+		case cfg.KindRangeLoop, cfg.KindForLoop:
+			return g.blk[i]
+		}
+	}
+	return -1
+}
